@@ -11,7 +11,7 @@ cd $W
 if [ -f "$DEMO" ]; then PYTHONPATH=$W PYTHONWARNINGS=ignore timeout 300 /venv/bin/python "$DEMO" > $O/demo_clean.txt 2>&1; DC=$?; else DC=-1; fi
 if ! git apply "$PATCH" 2> $O/apply.txt; then echo "$NAME applies=no"; exit 3; fi
 if [ -f "$DEMO" ]; then PYTHONPATH=$W PYTHONWARNINGS=ignore timeout 300 /venv/bin/python "$DEMO" > $O/demo_patched.txt 2>&1; DP=$?; else DP=-1; fi
-SUITE=$(/venv/bin/python -m pytest -q -p no:cacheprovider --timeout=900 -n 8 2>&1 | tail -3 | grep -E "passed|failed|error" | head -1)
+SUITE=$(/venv/bin/python -m pytest -q -p no:cacheprovider --timeout=900 -n 6 2>&1 | tail -3 | grep -E "passed|failed|error" | head -1)
 DET=""
 for c in "$@"; do
   out=$(cd /verif && VF_REPO=$W VF_OUT_ROOT=$O bin/check $c --tier quick 2>/dev/null)
